@@ -41,6 +41,11 @@ pub(crate) struct Thread {
     /// join, ...; only then does `unpark` wake it.
     parked: bool,
 
+    /// What the threads that called `unpark` had done up to that point. It is
+    /// acquired by the `park` that consumes the unpark (or is woken by it) and
+    /// not before: an `unpark` alone orders nothing.
+    unpark_causality: VersionVec,
+
     locals: LocalMap,
 
     /// `tracing` span used to associate diagnostics with the current thread.
@@ -114,6 +119,7 @@ impl Thread {
             yield_count: 0,
             unpark_token: false,
             parked: false,
+            unpark_causality: VersionVec::new(),
             locals: Vec::new(),
         }
     }
@@ -135,7 +141,13 @@ impl Thread {
 
     /// Consumes a stored `unpark`, if there is one.
     pub(crate) fn take_unpark_token(&mut self) -> bool {
-        std::mem::replace(&mut self.unpark_token, false)
+        let token = std::mem::replace(&mut self.unpark_token, false);
+
+        if token {
+            self.acquire_unpark();
+        }
+
+        token
     }
 
     pub(crate) fn set_blocked(&mut self, location: Location) {
@@ -176,7 +188,7 @@ impl Thread {
     }
 
     pub(crate) fn unpark(&mut self, unparker: &Thread) {
-        self.causality.join(&unparker.causality);
+        self.unpark_causality.join(&unparker.causality);
         self.set_unparked();
     }
 
@@ -186,9 +198,17 @@ impl Thread {
     fn set_unparked(&mut self) {
         if self.parked {
             self.set_runnable();
+            self.acquire_unpark();
         } else if !self.is_terminated() {
             self.unpark_token = true;
         }
+    }
+
+    /// The `park` call returns because of an `unpark`: synchronize with the
+    /// unparking threads.
+    fn acquire_unpark(&mut self) {
+        let unparked = std::mem::replace(&mut self.unpark_causality, VersionVec::new());
+        self.causality.join(&unparked);
     }
 }
 
